@@ -426,6 +426,22 @@ add('C10','hunt4-adjacency-from-the-endpoint-flag',SY,"		lastFlag = seg.Type != 
 add('C03','hunt4-literals-through-the-brace-rules',SG,"	case seg.Type == String: // 字符串节点中没有参数，其中的 { 和 } 只是普通字符，比如 /p/{a 与 /p/{b，按字节比较即可。","	case seg.Type == String && len(seg.Value) < 0:",'violation:C03.R23')
 add('C01','hunt4-group-name-unchecked',SG,"		if strings.IndexByte(seg.Name, '>') >= 0 { // 名称会成为正则表达式中的分组名称，其中的 > 会提前结束该名称。","		if strings.IndexByte(seg.Name, '>') >= len(seg.Name) {",'violation:C01.R24')
 
+# ---------------- round 12: the regexp source assembled in a strings.Builder, an error built by a helper
+_OLD_SRC = "	name := \":\"\n	if !seg.ignoreName {\n		if strings.IndexByte(seg.Name, '>') >= 0 { // 名称会成为正则表达式中的分组名称，其中的 > 会提前结束该名称。\n			return nil, fmt.Errorf(\"正则参数的名称中不能包含 >：%s\", val)\n		}\n		name = \"P<\" + seg.Name + \">\"\n	}\n	tail := regexp.QuoteMeta(seg.Suffix)\n	if seg.Suffix == \"\" { // 没有后缀的正则节点必然处于路由项的末尾，需要匹配所有剩余的内容，否则 zh|zh-CN 无法匹配 zh-CN。\n		tail = `\\z`\n	}\n	expr, err := regexp.Compile(\"(?\" + name + seg.rule + \")\" + tail)\n"
+def _builder(suffix_write, tail):
+    return ("	var b strings.Builder\n	b.WriteString(\"(?\")\n	if seg.ignoreName {\n		b.WriteByte(':')\n	} else {\n		if strings.IndexByte(seg.Name, '>') >= 0 {\n			return nil, fmt.Errorf(\"正则参数的名称中不能包含 >：%s\", val)\n		}\n		b.WriteString(\"P<\")\n		b.WriteString(seg.Name)\n		b.WriteByte('>')\n	}\n	b.WriteString(seg.rule)\n	b.WriteByte(')')\n" + tail.replace('SUFFIX', suffix_write) + "	expr, err := regexp.Compile(b.String())\n")
+_TAIL = "	if seg.Suffix == \"\" {\n		b.WriteString(`\\z`)\n	} else {\n		b.WriteString(SUFFIX)\n	}\n"
+add('C01','r12-benign-regexp-source-in-a-builder',SG,_OLD_SRC,_builder('regexp.QuoteMeta(seg.Suffix)',_TAIL),'silent','the same pieces in the same order, written into a local builder')
+add('C10','r12-benign-scratch-builder-is-not-an-emission',SG,_OLD_SRC,_builder('regexp.QuoteMeta(seg.Suffix)',_TAIL),'silent','the constructor\'s scratch builder is not the URL buffer')
+add('C01','r12-builder-raw-suffix',SG,_OLD_SRC,_builder('seg.Suffix',_TAIL),'violation:C01.R3')
+add('C02','r12-builder-anchor-on-every-expression',SG,_OLD_SRC,_builder('',"	b.WriteString(regexp.QuoteMeta(seg.Suffix))\n	b.WriteString(`\\z`)\n"),'violation:C02.R6')
+add('C14','r12-builder-group-closed-after-the-suffix',SG,_OLD_SRC,_builder('regexp.QuoteMeta(seg.Suffix)',_TAIL).replace("	b.WriteString(seg.rule)\n	b.WriteByte(')')\n","	b.WriteString(seg.rule)\n").replace("	expr, err := regexp.Compile(b.String())\n","	b.WriteByte(')')\n	expr, err := regexp.Compile(b.String())\n"),'violation:C14.R8')
+addm('C04','r12-benign-error-built-by-a-helper',[(SG,"		return nil, fmt.Errorf(\"参数的规则中不能包含 %c：%s\", startByte, val)\n	}\n	if matcher, found","		return nil, errRuleStartByte(val)\n	}\n	if matcher, found"),(SG,"// 去掉名称中表示忽略的 - 前缀","func errRuleStartByte(val string) error {\n	return fmt.Errorf(\"参数的规则中不能包含 %c：%s\", startByte, val)\n}\n\n// 去掉名称中表示忽略的 - 前缀")],'silent','a helper whose every return is an error constructor hands out a non-nil error')
+addm('C04','r12-error-helper-that-may-answer-nil',[(SG,"		return nil, fmt.Errorf(\"参数的规则中不能包含 %c：%s\", startByte, val)\n	}\n	if matcher, found","		return nil, errRuleStartByte(val)\n	}\n	if matcher, found"),(SG,"// 去掉名称中表示忽略的 - 前缀","func errRuleStartByte(val string) error {\n	if len(val) > 64 {\n		return nil\n	}\n	return fmt.Errorf(\"参数的规则中不能包含 %c：%s\", startByte, val)\n}\n\n// 去掉名称中表示忽略的 - 前缀")],'violation:C04.R18')
+add('C02','r12-benign-regexp-source-by-sprintf',SG,'regexp.Compile("(?" + name + seg.rule + ")" + tail)','regexp.Compile(fmt.Sprintf("(?%s%s)%s", name, seg.rule, tail))','silent','a constant format of %s verbs over strings is a concatenation')
+add('C14','r12-sprintf-suffix-inside-the-group',SG,'regexp.Compile("(?" + name + seg.rule + ")" + tail)','regexp.Compile(fmt.Sprintf("(?%s%s%s)", name, seg.rule, tail))','violation:C14.R8')
+add('C01','r12-sprintf-quoting-verb',SG,'regexp.Compile("(?" + name + seg.rule + ")" + tail)','regexp.Compile(fmt.Sprintf("(?%s%s)%q", name, seg.rule, tail))','violation:C01.R3')
+
 for pid,entries in C.items():
     os.makedirs(os.path.join(base,pid),exist_ok=True)
     json.dump(entries,open(os.path.join(base,pid,'entries.json'),'w'),indent=1,ensure_ascii=False)
